@@ -332,7 +332,7 @@ def validity(case):
             bad.append(f"plausible-equal[{i}]")
         if not (l <= p and p < q and q <= u):
             bad.append(f"order[{i}]")
-        if x < l or x > u:
+        if x < l or x > u or math.isinf(x):          # an infinite x0 is not a point of any box
             bad.append(f"x0-outside[{i}]")
         if l == u:
             bad.append(f"hard-identical[{i}]")
